@@ -37,6 +37,9 @@ type c18Case struct {
 	Cond  int       `json:"cond"`
 	Bytes []byte    `json:"bytes,omitempty"`
 	Alias string    `json:"alias"` // "", "va" (receiver aliases first operand), "vb", "vab"
+	// previous content of the receiver (when it does not alias an operand): the result of an overwriting
+	// method must not depend on it
+	Old [4]uint64 `json:"old"`
 	// scalar cases (c18_sc.go)
 	S [5]uint64 `json:"s"`
 	U uint8     `json:"u"`
@@ -112,10 +115,10 @@ func genK1Value(r *vf.Rand, allowUnreduced bool) [4]uint64 {
 	return l
 }
 
-var c18Ops = []string{"add", "sub", "neg", "mul", "square", "inv", "reduce", "setBytes", "bytes", "equal", "isZero", "select", "swap"}
+var c18Ops = []string{"one", "zero", "set", "add", "sub", "neg", "mul", "square", "inv", "reduce", "setBytes", "bytes", "equal", "isZero", "select", "swap"}
 
 func k1Key(cs c18Case) string {
-	return fmt.Sprintf("%s/%s/%v/%v/%d/%x/%v/%d", cs.Op, cs.Alias, cs.A, cs.B, cs.Cond, cs.Bytes, cs.S, cs.U)
+	return fmt.Sprintf("%s/%s/%v/%v/%d/%x/%v/%d", cs.Op, cs.Alias, cs.A, cs.B, cs.Cond, cs.Bytes, cs.S, cs.U) + fmt.Sprint(cs.Old)
 }
 
 func execC18(c *vf.Ctx, d *vf.Driver, cs c18Case) {
@@ -126,6 +129,10 @@ func execC18(c *vf.Ctx, d *vf.Driver, cs c18Case) {
 	var a, b, v verifhook.Fe256k1
 	a.VerifSetLimbs(cs.A)
 	b.VerifSetLimbs(cs.B)
+	v.VerifSetLimbs(cs.Old)
+	if cs.Old != ([4]uint64{}) {
+		c.Count("receiver:reused")
+	}
 	pa, pb, pv := &a, &b, &v
 	fa, fb := cs.A, cs.B
 	switch cs.Alias {
@@ -187,6 +194,30 @@ func execC18(c *vf.Ctx, d *vf.Driver, cs c18Case) {
 	}
 	panicked, what := vf.Recover(func() {
 		switch cs.Op {
+		case "one", "zero", "set":
+			// constructors on a REUSED receiver: exact limbs, independent of the old content
+			want := [4]uint64{0, 0, 0, 0}
+			switch cs.Op {
+			case "one":
+				pv.One()
+				want = [4]uint64{1, 0, 0, 0}
+			case "zero":
+				pv.Zero()
+			case "set":
+				pv.Set(pa)
+				want = fa
+			}
+			got := pv.VerifLimbs()
+			if got != want {
+				fail("property", "c18-ctor-"+cs.Op, cs.Op+" on a reused receiver does not overwrite every limb", fmt.Sprint(got), fmt.Sprint(want)+" (old receiver "+fmt.Sprint(cs.Old)+")")
+			}
+			old := cs.Old
+			if cs.Alias == "va" {
+				old = cs.A
+			}
+			if res, ok := model("fe256.ctor", vf.Str(cs.Op), toWireInts(old[:]), wa); ok && fmt.Sprint(fromWireInts(res)) != fmt.Sprint(got[:]) {
+				fail("correspondence", "c18-translation-"+cs.Op, "regenerated constructor program and Go implementation disagree", fmt.Sprint(got), res.Render())
+			}
 		case "add":
 			pv.Add(pa, pb)
 			arith(new(big.Int).Add(va, vb), true)
@@ -367,10 +398,18 @@ func genC18(r *vf.Rand) c18Case {
 	cs := c18Case{Op: c18Ops[r.Intn(len(c18Ops))], Cond: r.Intn(2)}
 	unred := cs.Op == "reduce"
 	cs.A, cs.B = genK1Value(r, unred), genK1Value(r, unred)
+	switch r.Intn(4) { // previous content of the receiver
+	case 0:
+		cs.Old = [4]uint64{^uint64(0), ^uint64(0), ^uint64(0), ^uint64(0)}
+	case 1:
+		cs.Old = k1ValLimbs(new(big.Int).Sub(k1P, big.NewInt(1)))
+	case 2:
+		cs.Old = [4]uint64{r.U64(), r.U64(), r.U64(), r.U64()}
+	}
 	switch cs.Op {
 	case "add", "sub", "mul", "select":
 		cs.Alias = []string{"", "", "va", "vb", "vab"}[r.Intn(5)]
-	case "neg", "square", "inv":
+	case "neg", "square", "inv", "set", "one", "zero":
 		cs.Alias = []string{"", "va"}[r.Intn(2)]
 	case "equal":
 		if r.Intn(3) == 0 {
@@ -406,6 +445,13 @@ func cornersC18() []c18Case {
 					out = append(out, c18Case{Op: op, A: x, B: y, Alias: al, Cond: len(out) % 2, Bytes: k1BE(k1LimbsVal(x), 32)})
 				}
 			}
+		}
+	}
+	// every overwriting method on a receiver that still holds an earlier value
+	ones := [4]uint64{^uint64(0), ^uint64(0), ^uint64(0), ^uint64(0)}
+	for _, op := range []string{"one", "zero", "set", "add", "sub", "neg", "mul", "square", "inv", "select", "setBytes"} {
+		for _, o := range [][4]uint64{ones, pm1, {0, 0, 0, 1}, {0, 0, 0, ^uint64(0)}} {
+			out = append(out, c18Case{Op: op, A: vals[2], B: vals[1], Old: o, Cond: 1, Bytes: []byte{7}})
 		}
 	}
 	// reduce on every vector p + d, 2^256 - 1 - d for small d, and the unreduced extremes
